@@ -40,10 +40,49 @@ def sink_of(ex, out):
     return r, v
 
 
+def is_rope(v):
+    return type(v) is Opaque and v.tag == "rope"
+
+
+def is_atom(v):
+    return type(v) is Opaque and v.tag == "atom"
+
+
+def rope_parts(v):
+    """parts of a string-like value: literal text (str / BStr) and segments"""
+    if is_rope(v):
+        return v.payload[0]
+    if is_atom(v):
+        return (("seg", "raw", v.payload[0], None),)
+    if type(v) is tuple and v and v[0] == "seg":
+        return (v,)
+    if type(v) is str:
+        return (v,) if v else ()
+    if type(v) is BStr:
+        return (v,) if v.b else ()
+    raise ExecError("not string-like: %r" % (v,))
+
+
+def mk_rope(parts):
+    out = []
+    for p in parts:
+        if type(p) is str and out and type(out[-1]) is str:
+            out[-1] = out[-1] + p
+        else:
+            out.append(p)
+    if all(type(p) is str for p in out):
+        return "".join(out)
+    return Opaque("rope", (tuple(out),))
+
+
 def sink_write(ex, out, s):
     r, v = sink_of(ex, out)
     if type(s) is SymStr:
         s = SYM_PLACEHOLDER
+    if is_rope(v) or is_rope(s) or is_atom(s) or (type(s) is tuple and s and s[0] == "seg"):
+        if type(v) in (str, BStr) or is_rope(v):
+            wr(r, mk_rope(rope_parts(v) + rope_parts(s)))
+            return True
     if type(v) is str and type(s) is str:
         wr(r, v + s)
     elif type(v) in (str, BStr) and type(s) in (str, BStr):
@@ -160,6 +199,20 @@ def fmt_value(ex, out, kind, ty, v, opts=None):
         raise Unmodelled("dynamic width / precision in format string")
     if t is Adt and val.ty == "Cow":
         return fmt_value(ex, out, kind, "str", val.fields[0], opts)
+    if is_atom(val):
+        return sink_write(ex, out, ("seg", "raw", val.payload[0], opts))
+    if is_rope(val):
+        if opts and "width" in opts:
+            return sink_write(ex, out, ("seg", "raw-rope", val.payload[0], opts))
+        return sink_write(ex, out, val)
+    if t is Adt and val.ty == "Shell":
+        inner = rda(val.fields[0])
+        if type(inner) is Adt and inner.ty == "Cow":
+            inner = rda(inner.fields[0])
+        if is_atom(inner):
+            return sink_write(ex, out, ("seg", "quoted", inner.payload[0], None))
+        if is_rope(inner):
+            return sink_write(ex, out, ("seg", "quoted-rope", inner.payload[0], None))
     if t in (str, BStr, SymStr):
         if debug:
             if t is str:
